@@ -42,3 +42,385 @@ Proof.
       - now rewrite IH. }
     rewrite Hrun. exact Hev.
 Qed.
+
+(* ================= NextLabel on printed names ================= *)
+From Dns Require Import Proofs.EscapeProofs.
+
+Lemma nl_go_cons pre c r i : r <> [] ->
+  nl_go pre (c :: r) i =
+  if (c =? 46) && Nat.even (bs_run pre) then (S i, false) else nl_go (c :: pre) r (S i).
+Proof. destruct r; [congruence|reflexivity]. Qed.
+
+(* reading a separator-free segment L that is followed by an unescaped dot and
+   more text: NextLabel stops just after that dot *)
+Lemma nl_go_mid P L R :
+  has_sep (scan false P) L = false -> scan (scan false P) L = false -> R <> [] ->
+  nl_go (rev P) (L ++ 46 :: R) (length P) = (length P + length L + 1, false)%nat.
+Proof.
+  revert P. induction L as [|c L IH]; intros P Hs Hf HR.
+  - cbn in Hf. cbn [app nl_go]. destruct R as [|r R]; [congruence|].
+    rewrite bs_run_even, Hf. cbn. f_equal. lia.
+  - cbn [app]. rewrite nl_go_cons by (destruct L; discriminate).
+    cbn [has_sep] in Hs. apply orb_false_elim in Hs. destruct Hs as [Hs1 Hs2].
+    rewrite bs_run_even.
+    assert (Hc : (c =? 46) && negb (scan false P) = false).
+    { rewrite andb_comm. exact Hs1. }
+    rewrite Hc.
+    replace (c :: rev P) with (rev (P ++ [c])) by (rewrite rev_app_distr; reflexivity).
+    replace (S (length P)) with (length (P ++ [c])) by (rewrite app_length; cbn; lia).
+    rewrite IH.
+    + rewrite app_length. cbn. f_equal. lia.
+    + rewrite scan_app. exact Hs2.
+    + rewrite scan_app. exact Hf.
+    + exact HR.
+Qed.
+
+(* reading the last segment: no separator before the final octet, which is
+   never examined; NextLabel reports the end at len(s) *)
+Lemma nl_go_last P L x :
+  has_sep (scan false P) L = false ->
+  nl_go (rev P) (L ++ [x]) (length P) = (length P + length L + 1, true)%nat.
+Proof.
+  revert P. induction L as [|c L IH]; intros P Hs.
+  - cbn. f_equal. lia.
+  - cbn [app]. rewrite nl_go_cons by (destruct L; discriminate).
+    cbn [has_sep] in Hs. apply orb_false_elim in Hs. destruct Hs as [Hs1 Hs2].
+    rewrite bs_run_even.
+    assert (Hc : (c =? 46) && negb (scan false P) = false).
+    { rewrite andb_comm. exact Hs1. }
+    rewrite Hc.
+    replace (c :: rev P) with (rev (P ++ [c])) by (rewrite rev_app_distr; reflexivity).
+    replace (S (length P)) with (length (P ++ [c])) by (rewrite app_length; cbn; lia).
+    rewrite IH.
+    + rewrite app_length. cbn. f_equal. lia.
+    + rewrite scan_app. exact Hs2.
+Qed.
+
+(* well-formed label lists: non-empty labels of octets *)
+Definition labels_wf (ls : list label) : Prop := Forall (fun l => l <> [] /\ wfb l) ls.
+
+Lemma show_labels_scan ls : labels_wf ls -> scan false (show_labels ls) = false.
+Proof.
+  unfold show_labels. induction 1 as [|l ls [_ Hl] _ IH]; cbn; [reflexivity|].
+  rewrite <- app_assoc, !scan_app. destruct (show_label_scan l Hl) as [H1 _].
+  rewrite H1. cbn. exact IH.
+Qed.
+
+Lemma show_labels_cons l ls : show_labels (l :: ls) = show_label l ++ 46 :: show_labels ls.
+Proof. unfold show_labels. cbn. now rewrite <- app_assoc. Qed.
+
+Lemma show_labels_app a b : show_labels (a ++ b) = show_labels a ++ show_labels b.
+Proof. unfold show_labels. now rewrite flat_map_app. Qed.
+
+Lemma show_labels_nonempty l ls : show_labels (l :: ls) <> [].
+Proof. rewrite show_labels_cons. destruct (show_label l); discriminate. Qed.
+
+(* the presentation forms of a non-root name: with and without the final dot *)
+Definition name_form (fq : bool) (ls : list label) : bytes :=
+  if fq then show_labels ls else removelast (show_labels ls).
+
+Lemma show_labels_snoc_form ls l :
+  show_labels (ls ++ [l]) = show_labels ls ++ show_label l ++ [46].
+Proof. rewrite show_labels_app, show_labels_cons. reflexivity. Qed.
+
+Lemma removelast_snoc {A} (a : list A) x : removelast (a ++ [x]) = a.
+Proof. now rewrite removelast_app, app_nil_r by discriminate. Qed.
+
+(* NextLabel at the start of label i (before: pre, label: l, after: post) *)
+Lemma next_label_mid pre l post s :
+  labels_wf pre -> l <> [] /\ wfb l -> post <> [] ->
+  s = show_labels pre ++ show_label l ++ 46 :: post ->
+  next_label s (length (show_labels pre)) =
+  (length (show_labels pre) + length (show_label l) + 1, false)%nat.
+Proof.
+  intros Hpre [Hne Hl] Hpost ->. unfold next_label.
+  destruct (show_labels pre ++ show_label l ++ 46 :: post) eqn:Hs.
+  { destruct (show_labels pre); [|discriminate]. destruct (show_label l); discriminate. }
+  rewrite <- Hs. rewrite firstn_app_exact, skipn_app_exact.
+  destruct (show_label_scan l Hl) as [H1 H2].
+  apply nl_go_mid; rewrite ?show_labels_scan; auto.
+Qed.
+
+Lemma next_label_last pre L x s :
+  labels_wf pre -> has_sep false L = false ->
+  s = show_labels pre ++ L ++ [x] ->
+  next_label s (length (show_labels pre)) = (length s, true).
+Proof.
+  intros Hpre HL ->. unfold next_label.
+  destruct (show_labels pre ++ L ++ [x]) eqn:Hs.
+  { destruct (show_labels pre); [|discriminate]. destruct L; discriminate. }
+  rewrite <- Hs. rewrite firstn_app_exact, skipn_app_exact.
+  rewrite nl_go_last by (rewrite show_labels_scan; auto).
+  rewrite !app_length. cbn. f_equal. lia.
+Qed.
+
+(* ================= Split / CountLabel ================= *)
+Fixpoint label_starts (off : nat) (ls : list label) : list nat :=
+  match ls with
+  | [] => []
+  | l :: r => off :: label_starts (off + length (show_label l) + 1) r
+  end.
+Fixpoint nexts (p : nat) (ls : list label) : list nat :=
+  match ls with
+  | [] => []
+  | l :: r => let p' := (p + length (show_label l) + 1)%nat in p' :: nexts p' r
+  end.
+Lemma label_starts_snoc p mid last : label_starts p (mid ++ [last]) = p :: nexts p mid.
+Proof.
+  revert p; induction mid as [|l r IH]; intros p; cbn; [reflexivity|].
+  now rewrite IH.
+Qed.
+
+(* a name whose last segment is L ++ [x] (x is the final dot of the FQDN form,
+   or the last octet of the last label in the form without the final dot) *)
+Definition seg_name (pre mid : list label) (L : bytes) (x : N) : bytes :=
+  show_labels pre ++ show_labels mid ++ L ++ [x].
+
+Lemma labels_wf_app a b : labels_wf a -> labels_wf b -> labels_wf (a ++ b).
+Proof. unfold labels_wf. intros. apply Forall_app; auto. Qed.
+
+Lemma split_go_spec mid : forall pre L x fuel acc,
+  labels_wf pre -> labels_wf mid -> has_sep false L = false ->
+  (length mid < fuel)%nat ->
+  split_go fuel (seg_name pre mid L x) (length (show_labels pre)) acc =
+  Some (rev acc ++ nexts (length (show_labels pre)) mid).
+Proof.
+  induction mid as [|l mid IH]; intros pre L x fuel acc Hpre Hmid HL Hfuel.
+  - destruct fuel as [|fuel]; [cbn in Hfuel; lia|]. cbn [split_go].
+    unfold seg_name. cbn [show_labels flat_map app].
+    rewrite (next_label_last pre L x) by auto. now rewrite app_nil_r.
+  - destruct fuel as [|fuel]; [cbn in Hfuel; lia|]. cbn [split_go].
+    inversion Hmid as [|? ? Hl Hmid']; subst.
+    unfold seg_name. rewrite show_labels_cons, <- app_assoc. cbn [app].
+    rewrite (next_label_mid pre l (show_labels mid ++ L ++ [x])); auto.
+    2:{ destruct (show_labels mid); [destruct L|]; discriminate. }
+    cbn [nexts].
+    assert (Hlen : (length (show_labels pre) + length (show_label l) + 1)%nat
+                   = length (show_labels (pre ++ [l]))).
+    { rewrite show_labels_snoc_form, !app_length. cbn. lia. }
+    rewrite Hlen.
+    replace (show_labels pre ++ show_label l ++ 46 :: show_labels mid ++ L ++ [x])
+      with (seg_name (pre ++ [l]) mid L x).
+    2:{ unfold seg_name. rewrite show_labels_snoc_form, <- !app_assoc. reflexivity. }
+    rewrite IH; auto.
+    + cbn [rev]. now rewrite <- app_assoc.
+    + apply labels_wf_app; auto. constructor; auto.
+    + cbn in Hfuel. lia.
+Qed.
+
+Lemma count_go_spec mid : forall pre L x fuel acc,
+  labels_wf pre -> labels_wf mid -> has_sep false L = false ->
+  (length mid < fuel)%nat ->
+  count_go fuel (seg_name pre mid L x) (length (show_labels pre)) acc =
+  Some (acc + length mid + 1)%nat.
+Proof.
+  induction mid as [|l mid IH]; intros pre L x fuel acc Hpre Hmid HL Hfuel.
+  - destruct fuel as [|fuel]; [cbn in Hfuel; lia|]. cbn [count_go].
+    unfold seg_name. cbn [show_labels flat_map app].
+    rewrite (next_label_last pre L x) by auto. f_equal. cbn. lia.
+  - destruct fuel as [|fuel]; [cbn in Hfuel; lia|]. cbn [count_go].
+    inversion Hmid as [|? ? Hl Hmid']; subst.
+    unfold seg_name. rewrite show_labels_cons, <- app_assoc. cbn [app].
+    rewrite (next_label_mid pre l (show_labels mid ++ L ++ [x])); auto.
+    2:{ destruct (show_labels mid); [destruct L|]; discriminate. }
+    assert (Hlen : (length (show_labels pre) + length (show_label l) + 1)%nat
+                   = length (show_labels (pre ++ [l]))).
+    { rewrite show_labels_snoc_form, !app_length. cbn. lia. }
+    rewrite Hlen.
+    replace (show_labels pre ++ show_label l ++ 46 :: show_labels mid ++ L ++ [x])
+      with (seg_name (pre ++ [l]) mid L x).
+    2:{ unfold seg_name. rewrite show_labels_snoc_form, <- !app_assoc. reflexivity. }
+    rewrite IH; auto.
+    + f_equal. cbn. lia.
+    + apply labels_wf_app; auto. constructor; auto.
+    + cbn in Hfuel. lia.
+Qed.
+
+(* every presentation form of a non-root name is a seg_name *)
+Lemma has_sep_prefix st a b : has_sep st (a ++ b) = false -> has_sep st a = false.
+Proof. rewrite has_sep_app. intro H. now apply orb_false_elim in H. Qed.
+
+Lemma name_form_seg fq mid last :
+  labels_wf mid -> last <> [] /\ wfb last ->
+  exists L x, name_form fq (mid ++ [last]) = seg_name [] mid L x /\ has_sep false L = false.
+Proof.
+  intros Hmid [Hne Hl]. destruct (show_label_scan last Hl) as [_ Hsep].
+  destruct fq; unfold name_form, seg_name; cbn [show_labels flat_map app];
+    fold (show_labels mid); rewrite show_labels_snoc_form.
+  - exists (show_label last), 46. auto.
+  - rewrite app_assoc, removelast_snoc.
+    destruct (exists_last (show_label_nonempty last Hne)) as [L [x HLx]].
+    exists L, x. rewrite HLx in *. split; [reflexivity|].
+    eapply has_sep_prefix; eauto.
+Qed.
+
+Lemma show_label_hd_not_dot l : l <> [] -> wfb l -> hd 0 (show_label l) <> 46.
+Proof.
+  destruct l as [|b l]; [congruence|]. intros _ Hw. inversion Hw as [|? ? Hb _]; subst.
+  unfold show_label. cbn [flat_map].
+  assert (H : negb (hd 0 (show_octet b) =? 46) = true).
+  { clear Hw. revert b Hb. apply octet_sweep. vm_compute. reflexivity. }
+  pose proof (show_octet_nonempty b) as Hn.
+  destruct (show_octet b) as [|y t]; [congruence|]. cbn in *.
+  intro E. rewrite E in H. discriminate.
+Qed.
+
+Lemma name_form_not_root fq mid last :
+  labels_wf mid -> last <> [] /\ wfb last -> is_root (name_form fq (mid ++ [last])) = false.
+Proof.
+  intros Hmid [Hne Hl].
+  destruct (is_root _) eqn:E; [|reflexivity]. exfalso.
+  apply bytes_eqb_eq in E.
+  (* the first label of the name *)
+  assert (Hfirst : exists f rest, mid ++ [last] = f :: rest /\ f <> [] /\ wfb f).
+  { destruct mid as [|m mid]; cbn.
+    - exists last, []. auto.
+    - inversion Hmid as [|? ? [Hmne Hmw] _]; subst. exists m, (mid ++ [last]). auto. }
+  destruct Hfirst as [f [rest [Hfr [Hfne Hfw]]]].
+  pose proof (show_label_hd_not_dot f Hfne Hfw) as Hh.
+  pose proof (show_label_nonempty f Hfne) as Hn.
+  unfold name_form in E. rewrite Hfr, show_labels_cons in E.
+  destruct (show_label f) as [|a t] eqn:Hm; [congruence|]. cbn [hd] in Hh.
+  destruct fq.
+  - cbn in E. injection E as E1 E2. congruence.
+  - cbn [app] in E.
+    destruct (t ++ 46 :: show_labels rest) as [|y Y] eqn:Ht.
+    { destruct t; discriminate. }
+    cbn [removelast] in E. injection E as E1 _. congruence.
+Qed.
+
+Lemma show_labels_length_ge ls : (length ls <= length (show_labels ls))%nat.
+Proof.
+  induction ls as [|l r IH]; [cbn; lia|].
+  rewrite show_labels_cons, app_length. cbn [length]. lia.
+Qed.
+
+Theorem split_spec fq mid last :
+  labels_wf mid -> last <> [] /\ wfb last ->
+  split (name_form fq (mid ++ [last])) = Some (label_starts 0 (mid ++ [last])).
+Proof.
+  intros Hmid Hlast. unfold split. rewrite name_form_not_root by auto.
+  destruct (name_form_seg fq mid last Hmid Hlast) as [L [x [HE HL]]].
+  rewrite HE.
+  pose proof (split_go_spec mid [] L x (S (length (seg_name [] mid L x))) [0%nat]) as H.
+  cbn [show_labels flat_map length] in H.
+  rewrite H by first [ assumption | apply Forall_nil | (unfold seg_name; cbn [show_labels flat_map app]; rewrite !app_length;
+                   pose proof (show_labels_length_ge mid); cbn; lia) ].
+  rewrite label_starts_snoc. reflexivity.
+Qed.
+
+Theorem count_label_spec fq mid last :
+  labels_wf mid -> last <> [] /\ wfb last ->
+  count_label (name_form fq (mid ++ [last])) = Some (length (mid ++ [last])).
+Proof.
+  intros Hmid Hlast. unfold count_label. rewrite name_form_not_root by auto.
+  destruct (name_form_seg fq mid last Hmid Hlast) as [L [x [HE HL]]].
+  rewrite HE.
+  pose proof (count_go_spec mid [] L x (S (length (seg_name [] mid L x))) 0%nat) as H.
+  cbn [show_labels flat_map length] in H.
+  rewrite H by first [ assumption | apply Forall_nil | (unfold seg_name; cbn [show_labels flat_map app]; rewrite !app_length;
+                   pose proof (show_labels_length_ge mid); cbn; lia) ].
+  rewrite app_length. cbn [length]. f_equal; lia.
+Qed.
+
+(* ================= Fqdn / CanonicalName on printed names ================= *)
+Lemma is_fqdn_show_labels mid last :
+  labels_wf mid -> last <> [] /\ wfb last -> is_fqdn (show_labels (mid ++ [last])) = true.
+Proof.
+  intros Hmid [Hne Hl]. unfold is_fqdn.
+  rewrite show_labels_snoc_form, app_assoc, rev_app_distr. cbn [rev app].
+  rewrite bs_run_even, scan_app, show_labels_scan by auto.
+  destruct (show_label_scan last Hl) as [-> _]. reflexivity.
+Qed.
+
+Lemma is_fqdn_name_form_false mid last :
+  labels_wf mid -> last <> [] /\ wfb last -> is_fqdn (name_form false (mid ++ [last])) = false.
+Proof.
+  intros Hmid [Hne Hl]. unfold name_form.
+  rewrite show_labels_snoc_form, app_assoc, removelast_snoc.
+  destruct (exists_last (show_label_nonempty last Hne)) as [L [x HLx]].
+  unfold is_fqdn. rewrite HLx, app_assoc, rev_app_distr. cbn [rev app].
+  destruct (N.eqb_spec x 46) as [->|Hx].
+  - rewrite bs_run_even, scan_app, show_labels_scan by auto.
+    destruct (show_label_scan last Hl) as [_ Hsep]. rewrite HLx, has_sep_app in Hsep.
+    apply orb_false_elim in Hsep. destruct Hsep as [_ Hsep]. cbn in Hsep.
+    rewrite orb_false_r, andb_true_r in Hsep. now rewrite Hsep.
+  - destruct x as [|p]; [reflexivity|].
+    repeat (destruct p as [p|p|]; try reflexivity). congruence.
+Qed.
+
+Theorem fqdn_spec fq mid last :
+  labels_wf mid -> last <> [] /\ wfb last ->
+  fqdn (name_form fq (mid ++ [last])) = show_labels (mid ++ [last]).
+Proof.
+  intros Hmid Hlast. unfold fqdn. destruct fq.
+  - unfold name_form. now rewrite is_fqdn_show_labels.
+  - rewrite is_fqdn_name_form_false by auto. unfold name_form.
+    rewrite show_labels_snoc_form, app_assoc, removelast_snoc, <- app_assoc. reflexivity.
+Qed.
+
+Lemma lower_show_labels ls : labels_wf ls ->
+  lower_bytes (show_labels ls) = show_labels (map lower_bytes ls).
+Proof.
+  induction 1 as [|l ls [_ Hl] _ IH]; [reflexivity|].
+  cbn [map]. rewrite !show_labels_cons. unfold lower_bytes in *. rewrite map_app. cbn [map].
+  rewrite IH. f_equal. apply lower_show_label, Hl.
+Qed.
+
+Theorem canonical_name_spec fq mid last :
+  labels_wf mid -> last <> [] /\ wfb last ->
+  canonical_name (name_form fq (mid ++ [last])) = show_labels (map lower_bytes (mid ++ [last])).
+Proof.
+  intros Hmid Hlast. unfold canonical_name. rewrite fqdn_spec by auto.
+  apply lower_show_labels. apply labels_wf_app; auto. constructor; auto.
+Qed.
+
+(* NextLabel steps from each label start to the next, and reports the end at the last *)
+Theorem next_label_visits fq pre l post :
+  labels_wf pre -> l <> [] /\ wfb l -> labels_wf post ->
+  next_label (name_form fq (pre ++ l :: post)) (length (show_labels pre)) =
+  match post with
+  | [] => (length (name_form fq (pre ++ [l])), true)
+  | _ => ((length (show_labels pre) + length (show_label l) + 1)%nat, false)
+  end.
+Proof.
+  intros Hpre Hl Hpost. unfold label, bytes in *. destruct post as [|p post].
+  - destruct (name_form_seg fq pre l Hpre Hl) as [L [x [HE HL]]].
+    unfold label, bytes in *. rewrite !HE. unfold seg_name. cbn [show_labels flat_map app].
+    exact (next_label_last pre L x (show_labels pre ++ L ++ [x]) Hpre HL eq_refl).
+  - (* a middle label: what follows the dot is non-empty in both forms *)
+    destruct (exists_last (l:=p :: post) ltac:(discriminate)) as [mid' [last' Hml]].
+    assert (Hwf' : labels_wf mid' /\ (last' <> [] /\ wfb last')).
+    { rewrite Hml in Hpost. apply Forall_app in Hpost. destruct Hpost as [H1 H2].
+      split; [exact H1|]. now inversion H2. }
+    destruct Hwf' as [Hmid' Hlast'].
+    assert (Hform : exists R, R <> [] /\
+              name_form fq (pre ++ l :: p :: post) = show_labels pre ++ show_label l ++ 46 :: R).
+    { rewrite Hml.
+      replace (pre ++ l :: mid' ++ [last']) with ((pre ++ l :: mid') ++ [last'])
+        by (rewrite <- app_assoc; reflexivity).
+      destruct (name_form_seg fq (pre ++ l :: mid') last') as [L [x [HE HL]]]; auto.
+      { apply labels_wf_app; auto. constructor; auto. }
+      exists (show_labels mid' ++ L ++ [x]). split.
+      { destruct (show_labels mid'); [destruct L|]; discriminate. }
+      transitivity (seg_name [] (pre ++ l :: mid') L x); [exact HE|].
+      unfold seg_name. cbn [show_labels flat_map app].
+      fold (show_labels (pre ++ l :: mid')).
+      rewrite show_labels_app, show_labels_cons, <- !app_assoc. reflexivity. }
+    destruct Hform as [R [HR HE]]. rewrite HE.
+    apply (next_label_mid pre l R); auto.
+Qed.
+
+(* non-vacuity: a three-label name with an escaped dot, a backslash and a
+   non-printable octet satisfies the hypotheses and the helpers compute the
+   expected values *)
+Example labels_example :
+  let mid := [[97; 46; 98]; [92]] in let last := [0; 65] in
+  labels_wf mid /\ (last <> [] /\ wfb last) /\
+  split (name_form true (mid ++ [last])) = Some [0; 5; 8]%nat /\
+  count_label (name_form false (mid ++ [last])) = Some 3%nat.
+Proof.
+  cbn zeta. repeat split; try discriminate; try reflexivity.
+  - repeat constructor; try discriminate; reflexivity.
+  - repeat constructor; reflexivity.
+Qed.
